@@ -183,7 +183,7 @@ func driveC10(c *Ctx) {
 		}
 	}
 	for k := 1; k <= n+1 && k <= 8; k++ {
-		run(&FaultPlan{FailCall: k}, fmt.Sprintf("call %d errs", k))
+		run(&FaultPlan{FailCall: k, Partial: k % 3}, fmt.Sprintf("call %d errs (partial %d)", k, k%3))
 		for _, b := range []string{"nilnil", "self", "wrong", "shared", "same-id", "cyclic", "dag"} {
 			if b == "self" && !selfOK {
 				continue
